@@ -19,7 +19,13 @@ A *case description* (JSON) says what the deterministic command does:
      'spec': 'none' | 'dir' | 'explicit' | 'relative' | 'absolute' | 'glob',
      'status': 0 | 3, 'iters': 1|2|3,
      'no_stdout': 0|1, 'no_stderr': 0|1, 'nonzero': 0|1,
-     'script': 'rel' | 'abs' | 'bare' | 'nopfx',
+     'script': 'rel' | 'abs' | 'bare' | 'nopfx' | 'nound' (test<stem>.py),
+     'stem': 'x' | '_x' | '__x' | ...   script test_<stem>.py (default 'x')
+     'kw': {keyword of gentest(): value}   the rarely used keywords
+           (tmp_dir_shell_var None / custom, max_snapshot_files,
+           relative_paths, no_clobber), each at a non-default value
+     'entry': 'api' | 'cli' | 'wizard'  gentest() / tdda gentest ARGS / the
+           question-and-answer wizard fed through the actual_input seam
      'pre': 0|1}                                    outputs exist beforehand
 
 The command is always `sh ./emit.sh`; emit.sh only copies data files
@@ -64,6 +70,7 @@ TOKENS = {
     'cwd':     '{CWD}/x',
     'user':    'user {USER}',
     'host':    'on {HOST}',
+    'ip':      'addr {IP}',
     'tmp':     TMP_MARK + '/x',
     'empty':   '',
     'trail':   'end  ',
@@ -109,7 +116,7 @@ COMMANDS = [
 
 QUICK_TOKENS = ['plain', 'quotes', 'bslash', 'regex', 'uni', 'today',
                 'baddate', 'olddate', 'version', 'time', 'cwd', 'user',
-                'host', 'tmp', 'empty', 'trail']
+                'host', 'ip', 'tmp', 'empty', 'trail']
 THOROUGH_TOKENS = QUICK_TOKENS + ['now', 'euro', 'usdate',
                                   'nodate', 'tquotes', 'tab', 'percent',
                                   'home', 'endbs', 'brace']
@@ -132,7 +139,24 @@ FILE_KINDS = {
                   b're\xe7us \xe0 la f\xeate de No\xebl.\n'),
     'crlf': ('o.txt', b'a\r\nb\r\n'),
     'nultxt': ('o.txt', b'a\x00b\nc\n'),
+    # UTF-8 text files that gentest records with an explicit encoding:
+    # non-ASCII content without / with a byte-order mark in front
+    'utf8txt': ('o.txt', 'caf\u00e9 \u65e5\u672c\nplain\n'.encode('utf-8')),
+    'bomtxt': ('o.txt', b'\xef\xbb\xbf'
+               + 'caf\u00e9 \u65e5\u672c\nplain\n'.encode('utf-8')),
+    'bomascii': ('o.txt', b'\xef\xbb\xbfhello\nplain\n'),
 }
+BOM = b'\xef\xbb\xbf'
+# the rarely used keywords of gentest(), each at a non-default value
+KW_POINTS = [
+    {'tmp_dir_shell_var': None},
+    {'tmp_dir_shell_var': 'GT_SCRATCH'},
+    {'max_snapshot_files': 500},
+    {'relative_paths': True},
+    {'no_clobber': True},
+]
+# script names: test_<stem>.py; stems that differ only in underscores / case
+STEMS = ['x', '_x', '__x', 'x_', 'X', 'x_y']
 
 # where an output file is written: code -> (directory relative to the working
 # directory, the same as emit.sh spells it).  The working directory is
@@ -449,6 +473,10 @@ class Harness(object):
 
     def reset(self):
         self.reset_env()
+        self.reset_process()
+
+    def reset_process(self):
+        """everything but the environment variables / tempfile state"""
         sys.argv[:] = self.base_argv
         self.RT.regenerate.clear()
         self.RT.tmp_dir = self.fail
@@ -469,7 +497,8 @@ class Harness(object):
     def line(self, tok):
         return (TOKENS[tok].replace('{CWD}', self.box_dir)
                 .replace('{USER}', self.user).replace('{HOST}', self.host)
-                .replace('{HOME}', self.home))
+                .replace('{HOME}', self.home)
+                .replace('{IP}', self.ip or 'no-address'))
 
     def token_lines(self, tok):
         if tok.startswith('@line:'):
@@ -489,17 +518,29 @@ class Harness(object):
             s += '\n'
         return s.encode('utf-8')
 
-    def build(self, case, wipe=True):
+    def build(self, case, wipe=True, keep_env=False):
         """Create the sandbox for a case.  Returns a Box.  wipe=False keeps
         what an earlier generation left in the working directory (its script,
-        reference directory and the outputs of the earlier command)."""
-        self.reset()
+        reference directory and the outputs of the earlier command).
+        keep_env=True: the process environment (os.environ, tempfile) is
+        left as the previous generate / run in this process left it."""
+        if keep_env:
+            self.reset_process()
+        else:
+            self.reset()
         for d in (self.box_dir, self.gtmp, self.tmp, self.fail):
             if wipe or d != self.box_dir:
                 self._empty(d)
         b = Box()
         b.case = case
         b.cwd = self.box_dir
+        kw = case.get('kw') or {}
+        # the shell variable through which gentest hands its scratch
+        # directory to the command (None: gentest leaves $TMPDIR alone, the
+        # command sees the TMPDIR of the user's shell)
+        b.var = kw.get('tmp_dir_shell_var', 'TMPDIR')
+        shvar = b.var or 'TMPDIR'
+        b.tmpdir = self.gtmp if b.var else self.tmp
         b.data = {}                       # data file name -> bytes
         b.data['d_out.dat'] = self.text(case.get('out') or [],
                                         not case.get('out_nonl'))
@@ -508,13 +549,17 @@ class Harness(object):
         b.data['d_status.dat'] = ('%d\n' % case.get('status', 0)).encode()
         b.files = []                      # (relpath, data file name, kind)
         sh = ['# emit.sh: deterministic command written by the harness',
-              'sed "s|%s|$TMPDIR|g" d_out.dat' % TMP_MARK,
-              'sed "s|%s|$TMPDIR|g" d_err.dat 1>&2' % TMP_MARK]
+              'sed "s|%s|$%s|g" d_out.dat' % (TMP_MARK, shvar),
+              'sed "s|%s|$%s|g" d_err.dat 1>&2' % (TMP_MARK, shvar)]
         for i, f in enumerate(case.get('files') or []):
             name, content = FILE_KINDS[f['kind']]
             name = f.get('name') or name
             place = f.get('sub') or 0
             reldir, shdir = PLACES[place]
+            if place == 2:
+                shdir = '$' + shvar
+                if not b.var:
+                    reldir = os.path.join('..', 'tmp')
             rel = os.path.join(reldir, name)
             target = '"%s"' % os.path.join(shdir, name)
             if content is None:
@@ -523,7 +568,7 @@ class Harness(object):
             b.data[dname] = content
             b.files.append((rel, dname, f['kind']))
             if TMP_MARK.encode() in content:
-                copy = 'sed "s|%s|$TMPDIR|g" %s' % (TMP_MARK, dname)
+                copy = 'sed "s|%s|$%s|g" %s' % (TMP_MARK, shvar, dname)
             else:
                 copy = 'cat %s' % dname
             sh.append('if [ -f %s ]; then %s > %s; fi' % (dname, copy,
@@ -580,7 +625,7 @@ class Harness(object):
             # the command was tried by hand before gentest is run
             for rel, dname, kind in b.files:
                 with open(os.path.join(b.cwd, rel), 'wb') as f:
-                    f.write(self.expected_file(b, dname, self.gtmp))
+                    f.write(self.expected_file(b, dname, b.tmpdir))
         # how the outputs are named to gentest
         spec = case.get('spec', 'none')
         rels = [rel for rel, _, _ in b.files]
@@ -625,18 +670,20 @@ class Harness(object):
             raise ValueError(spec)
         sc = case.get('script', 'rel')
         b.command = COMMANDS[case.get('cmd', 0)]
-        stem = SCRIPT_STEM
+        stem = given = case.get('stem') or SCRIPT_STEM
         if sc in ('auto', 'dash'):
             # documented default: test_<sanitised command>.py
             stem = ''.join(c if c.isalnum() else '_' for c in b.command)
-        b.script_arg = {'rel': 'test_%s.py' % SCRIPT_STEM,
-                        'abs': os.path.join(b.cwd, 'test_%s.py' % SCRIPT_STEM),
-                        'bare': SCRIPT_STEM,
-                        'nopfx': '%s.py' % SCRIPT_STEM,
+        b.script_arg = {'rel': 'test_%s.py' % given,
+                        'abs': os.path.join(b.cwd, 'test_%s.py' % given),
+                        'bare': given,
+                        'nopfx': '%s.py' % given,
+                        # begins with "test" already: no prefix is added
+                        'nound': 'test%s.py' % given,
                         'auto': None, 'dash': '-'}[sc]
         b.stem = stem
-        b.modname = 'test_%s' % stem
-        b.script = os.path.join(b.cwd, 'test_%s.py' % stem)
+        b.modname = ('test%s' if sc == 'nound' else 'test_%s') % stem
+        b.script = os.path.join(b.cwd, b.modname + '.py')
         b.refdir = os.path.join(b.cwd, 'ref', stem)
         return b
 
@@ -656,11 +703,31 @@ class Harness(object):
                                            tmpdir.encode())
 
     # ------------------------------------------------------------ generate
-    def generate(self, b, settle=0.0):
-        """Call gentest.gentest in-process.  Returns dict(exc, exit, stdout,
-        stderr, audit)."""
+    def wizard_answers(self, b):
+        """the lines a user types into the wizard to ask for this case"""
         case = b.case
-        self.reset()
+        kw = case.get('kw') or {}
+        yn = lambda v: 'y' if v else 'n'
+        explicit = [a for a in b.file_args if a != '.']
+        return ([b.command, b.script_arg or '',
+                 yn(not explicit),                    # all files under $(pwd)
+                 yn(kw.get('tmp_dir_shell_var', 'TMPDIR'))]   # under $TMPDIR
+                + explicit + ['',
+                 yn(not case.get('no_stdout')), yn(not case.get('no_stderr')),
+                 yn(not case.get('nonzero')), yn(not kw.get('no_clobber')),
+                 str(case.get('iters', 2))])
+
+    def generate(self, b, settle=0.0, keep_env=False):
+        """Call gentest.gentest in-process.  Returns dict(exc, exit, stdout,
+        stderr, audit).  keep_env=True: called from the environment the
+        previous generate / run in this process left behind, and leaves its
+        own edits of os.environ in place."""
+        case = b.case
+        kw = dict(case.get('kw') or {})
+        if keep_env:
+            self.reset_process()
+        else:
+            self.reset()
         os.chdir(b.cwd)
         if settle:
             time.sleep(settle)
@@ -671,10 +738,24 @@ class Harness(object):
                 with contextlib.redirect_stdout(out), \
                         contextlib.redirect_stderr(err), \
                         deadline(HANG_LIMIT):
-                    if case.get('entry') == 'cli':
+                    if case.get('entry') == 'wizard':
+                        answers = iter(self.wizard_answers(b))
+                        old_input = self.gt.actual_input
+                        self.gt.actual_input = lambda: next(answers)
+                        try:
+                            self.gt.gentest(None, None, [])
+                        finally:
+                            self.gt.actual_input = old_input
+                    elif case.get('entry') == 'cli':
                         # the documented command line: tdda gentest [FLAGS]
                         # 'command' [script [files]]
                         args = list(case.get('flags') or [])
+                        if kw.get('relative_paths'):
+                            args.append('-r')
+                        if kw.get('max_snapshot_files'):
+                            args += ['-m', str(kw['max_snapshot_files'])]
+                        if kw.get('no_clobber'):
+                            args.append('-C')
                         if case.get('iters', 2) != 2:
                             args += ['-n', str(case['iters'])]
                         for k, fl in (('no_stdout', '-O'), ('no_stderr', '-E'),
@@ -692,7 +773,7 @@ class Harness(object):
                             iterations=case.get('iters', 2),
                             no_stdout=bool(case.get('no_stdout')),
                             no_stderr=bool(case.get('no_stderr')),
-                            non_zero_exit=bool(case.get('nonzero')))
+                            non_zero_exit=bool(case.get('nonzero')), **kw)
             except SystemExit as e:
                 res['exit'] = e.code if e.code is not None else 0
             except Hang:
@@ -706,7 +787,10 @@ class Harness(object):
         res['audit'] = list(log)
         res['stdout'] = out.getvalue()
         res['stderr'] = err.getvalue()
-        self.reset()
+        if keep_env:
+            self.reset_process()
+        else:
+            self.reset()
         os.chdir(b.cwd)
         return res
 
@@ -716,7 +800,7 @@ class Harness(object):
             src = f.read()
         return compile(src, b.script, 'exec')
 
-    def run_script(self, b, code=None, module=None):
+    def run_script(self, b, code=None, module=None, keep_env=False):
         """Run the generated script in-process through ReferenceTestCase.main.
 
         module=None: import it afresh from its path, from the user's
@@ -724,6 +808,9 @@ class Harness(object):
         earlier in res['module']>: the SAME loaded module and class objects are
         run again in the environment the first run left behind (a runner that
         re-runs loaded tests, unittest discovery keeping modules loaded).
+        keep_env=True: imported afresh, but in the environment this process
+        is in (a driver that generates and runs several tests in one process,
+        unittest discovery importing several generated scripts).
         Returns {'import_error', 'tests': {name: ok|fail|error}, 'other':
         [...] (class/module level errors), 'hang', 'module'}."""
         res = {'import_error': None, 'tests': {}, 'other': [], 'ran': 0,
@@ -732,7 +819,7 @@ class Harness(object):
         out, err = io.StringIO(), io.StringIO()
         RecRunner.result = None
         names = []
-        if module is None:
+        if module is None and not keep_env:
             self.reset()
         else:
             sys.argv[:] = self.base_argv
